@@ -818,3 +818,73 @@ pub fn c19_helper_failed<S: Src>(_s: &mut S) {
     }
     assert!(failures.is_empty(), "{} collateral scenarios violate the property; first: {}", failures.len(), failures[0]);
 }
+
+// ---------------------------------------------------------------- C08: largest-first selection through the public API (confirmation only)
+pub fn c08_largest_first<S: Src>(_s: &mut S) {
+    let mut failures: Vec<String> = Vec::new();
+    let coins: [u64; 5] = [5_000_000, 3_000_000, 9_000_000, 1_500_000, 7_000_000];
+    // all rotations and a few swaps of the offer order; several targets, one of them unreachable
+    let mut orders: Vec<Vec<usize>> = Vec::new();
+    for r in 0..5 { orders.push((0..5).map(|i| (i + r) % 5).collect()); orders.push((0..5).rev().map(|i| (i + r) % 5).collect()); }
+    orders.push(vec![2, 4, 0, 1, 3]); orders.push(vec![3, 1, 0, 4, 2]);
+    for order in &orders {
+        for target in [1_000_000u64, 6_000_000, 9_500_000, 15_000_000, 22_000_000, 40_000_000] {
+            for strategy in [CoinSelectionStrategyCIP2::LargestFirst, CoinSelectionStrategyCIP2::LargestFirstMultiAsset] {
+                let mut tb = TransactionBuilder::new(&config(true));
+                tb.add_output(&TransactionOutput::new(&addr(0, 50), &Value::new(&bn(target)))).unwrap();
+                let mut utxos = TransactionUnspentOutputs::new();
+                for &k in order {
+                    utxos.add(&TransactionUnspentOutput::new(&TransactionInput::new(&TransactionHash::from([k as u8 + 1; 32]), 0), &TransactionOutput::new(&addr(1, 4), &Value::new(&bn(coins[k])))));
+                }
+                let tag = format!("largest-first, offer order {:?}, target {}", order, target);
+                let r = tb.add_inputs_from(&utxos, strategy);
+                let ins = tb.get_explicit_input().map(|v| u64::from(v.coin())).unwrap_or(0);
+                let body_inputs = { let mut b = tb.clone(); b.set_fee(&bn(0)); b.build().map(|x| x.inputs()).ok() };
+                let mut chosen: Vec<usize> = Vec::new();
+                if let Some(bi) = &body_inputs { for i in 0..bi.len() { chosen.push(bi.get(i).transaction_id().to_bytes()[0] as usize - 1); } }
+                let mut d = chosen.clone(); d.sort(); d.dedup();
+                if d.len() != chosen.len() || chosen.iter().any(|&k| k >= 5) { failures.push(format!("{}: selected inputs {:?} are not distinct offered UTxOs", tag, chosen)); continue; }
+                if chosen.iter().map(|&k| coins[k]).sum::<u64>() != ins { failures.push(format!("{}: builder input total {} differs from the selected UTxOs {:?}", tag, ins, chosen)); }
+                let min_sel = chosen.iter().map(|&k| coins[k]).min().unwrap_or(u64::MAX);
+                if (0..5).any(|k| !chosen.contains(&k) && coins[k] > min_sel) { failures.push(format!("{}: a skipped UTxO is larger than a selected one ({:?})", tag, chosen)); }
+                let need = target + tb.min_fee().map(u64::from).unwrap_or(0);
+                match r {
+                    Ok(()) => {
+                        if ins < need { failures.push(format!("{}: selection reported success but inputs {} < outputs + minimum fee {}", tag, ins, need)); }
+                        if chosen.len() > 1 && ins - min_sel >= need { failures.push(format!("{}: selection did not stop when covered (inputs {} still cover {} without the smallest selected)", tag, ins, need)); }
+                    }
+                    Err(_) => if coins.iter().sum::<u64>() >= need + 1_000_000 { failures.push(format!("{}: insufficiency reported although all offered UTxOs ({}) suffice for {}", tag, coins.iter().sum::<u64>(), need)); },
+                }
+            }
+        }
+    }
+    assert!(failures.is_empty(), "{} largest-first scenarios violate the property; first: {}", failures.len(), failures[0]);
+}
+
+/// random-improve through the public API, repeated (the strategy draws from the thread RNG): whenever selection reports
+/// success, the inputs actually in the builder are distinct offered UTxOs and cover outputs + minimum fee
+pub fn c08_random_improve<S: Src>(_s: &mut S) {
+    let mut failures: Vec<String> = Vec::new();
+    let sets: [&[u64]; 4] = [&[10_000_000, 10_100_000, 10_150_000], &[10_000_000, 10_100_000, 300_000_000], &[5_000_000, 5_050_000, 5_100_000, 5_020_000], &[10_000_000, 19_000_000, 10_050_000, 2_000_000]];
+    for (si, coins) in sets.iter().enumerate() {
+        for trial in 0..300 {
+            for strategy in [CoinSelectionStrategyCIP2::RandomImprove, CoinSelectionStrategyCIP2::RandomImproveMultiAsset] {
+                let target = coins[0];
+                let mut tb = TransactionBuilder::new(&config(true));
+                tb.add_output(&TransactionOutput::new(&addr(0, 50), &Value::new(&bn(target)))).unwrap();
+                let mut utxos = TransactionUnspentOutputs::new();
+                for (k, c) in coins.iter().enumerate() {
+                    utxos.add(&TransactionUnspentOutput::new(&TransactionInput::new(&TransactionHash::from([k as u8 + 1; 32]), 0), &TransactionOutput::new(&addr(1, 4), &Value::new(&bn(*c)))));
+                }
+                if tb.add_inputs_from(&utxos, strategy).is_err() { continue; }
+                let ins = tb.get_explicit_input().map(|v| u64::from(v.coin())).unwrap_or(0);
+                let need = target + tb.min_fee().map(u64::from).unwrap_or(0);
+                if ins < need {
+                    failures.push(format!("random-improve (set {}, trial {}): selection reported success but the builder's inputs {} do not cover outputs + minimum fee {}", si, trial, ins, need));
+                }
+            }
+            if failures.len() > 3 { break; }
+        }
+    }
+    assert!(failures.is_empty(), "{} random-improve runs violate the property; first: {}", failures.len(), failures[0]);
+}
